@@ -13,11 +13,12 @@ def run(R, ctx):
     execsuite.run_exec_suite(
         R, ctx, name="lists",
         gens=[(1, families.list_reread(execgen_list.ListGen()))],
-        nprog=(300, 5000), corpus="exec_c09", extra_lines=small + families.refused_changes_nothing(random.Random(R.seed * 31 + 9), 120 if R.tier == "quick" else 2000),
+        nprog=(300, 5000), corpus="exec_c09", extra_lines=small + families.refused_changes_nothing(random.Random(R.seed * 31 + 9), 120 if R.tier == "quick" else 2000) +
+        execgen_list.long_list_programs(random.Random(R.seed * 131 + 9), 150 if R.tier == "quick" else 3000),
         what="list commands (LPUSH/RPUSH and X forms, LPOP/RPOP with and without count, LLEN, LINDEX, LRANGE, LSET, LREM, LTRIM, LPOS with "
              "RANK/COUNT/MAXLEN, LMOVE incl. source = destination, BLPOP/BRPOP served at once / nil at a 0.1-0.3 s timeout / invalid timeout) over "
              "values from three letters and the empty string, indexes and counts across both ends and at the int64 extremes, keys of other "
-             "types (SET), long and already-passed deadlines (EXPIRE), DEL/TYPE/TTL/EXISTS in between; refused-command scenarios followed by a full dump (a refused command changes nothing)")
+             "types (SET), long and already-passed deadlines (EXPIRE), DEL/TYPE/TTL/EXISTS in between; long lists (33-90 distinct elements: positional reads and writes near the tail, head and middle between pops and pushes at both ends); refused-command scenarios followed by a full dump (a refused command changes nothing)")
 
     rule = R.rule
     concsuite.run_conc(R, ctx, "list-bigread", ['bigread', 'bpoptime'], (2, 12), race=False)
